@@ -517,6 +517,11 @@ func GenPair(rt *rapid.T, o GenOpts) *Pair {
 			data = genContent(rt, o, size, poolSeed, label+".repl")
 			m = FileMeta{From: "", Op: "replace"}
 		}
+		if rapid.IntRange(0, 7).Draw(rt, label+".chmod") == 0 {
+			// the new build may say otherwise about the executable bit, whatever happens to the content
+			e = &Entry{Kind: e.Kind, Data: e.Data, Exec: !e.Exec}
+			p.Ops = append(p.Ops, fmt.Sprintf("chmod %s (executable: %v)", op, e.Exec))
+		}
 		if !place(dest, data, e.Exec, m) {
 			// destination taken: fall back to the original path, then to a unique one
 			if !place(op, data, e.Exec, m) {
